@@ -53,6 +53,9 @@ class CompressedFileHandler(FileHandler):
             self.entry = typing.cast(CompressedGopherEntry, super().getentry())
 
             self.entry.realencoding = None
+            # What is sent is the decompressor's output: the size of the
+            # stored file says nothing about the length of the response.
+            self.entry.size = None
             if (
                 self.entry.getencoding()
                 and self.entry.getencoding() in self.decompressors
